@@ -64,10 +64,10 @@ def parseExpr (ts : List (Tok Prim)) : Option (List (List (List XP))) :=
 
 /-- evaluate the expression (plus the default -print) on one entry -/
 def evalRefEntry (l : List (List (List XP))) (start : Bytes) (v : Visit Attr) (out : Bytes) : EvalOut × Bytes :=
-  let s0 : ES := ⟨out, false, false, 0⟩
+  let s0 : ES := ⟨{ out := out }, false, false, 0⟩
   let r := if l.isEmpty then (true, s0) else refL (sem start v) (·.quit) l false s0
   let r := if actL Prim.isAction l || r.2.quit || !r.1 then r else sem start v (.pathOut [] [10]) r.2
-  (⟨r.2.prune, r.2.quit, r.2.exit⟩, r.2.out)
+  (⟨r.2.prune, r.2.quit, r.2.exit⟩, r.2.gs.out)
 
 structure RefRes where
   out : Bytes
@@ -101,6 +101,71 @@ def predFind (follow : Follow) (roots : List (Bytes × Option (Node Attr))) (arg
   match refRun follow roots args with
   | none => obsSt != 0 && obsOut.isEmpty
   | some r => obsOut == r.out && ((obsSt == 0) == (r.ret == 0))
+
+/-! ### reference for the -exec actions (C08, C09) -/
+
+/-- every occurrence of `{}` replaced by the path, left to right, the inserted text not rescanned -/
+def replaceAll (path : Bytes) : Bytes → Bytes
+  | [] => []
+  | [b] => [b]
+  | a :: b :: rest =>
+    if a == 123 && b == 125 then path ++ replaceAll path rest
+    else a :: replaceAll path (b :: rest)
+
+/-- `./basename` and the parent directory of an entry, from the property text: below a starting
+    point the basename is the entry's name and the parent is the path without it -/
+def dirArgRef (start : Bytes) (rpath : List Name) : Bytes × Option Bytes :=
+  match rpath with
+  | n :: up => (46 :: 47 :: n, some (pathOf start up))
+  | [] =>
+    let p := start
+    ((match FuModel.Path.fileName p with
+      | some f => 46 :: 47 :: f
+      | none => FuModel.Path.join [46] p),
+     (match FuModel.Path.parent p with
+      | none => some p
+      | some [] => none
+      | some d => some d))
+
+/-- the primaries with the exec actions read from the property text: `-exec … ;` runs the command
+    with `{}` replaced and is true iff it exits 0; `-exec … +` only records the path it is reached on -/
+def semRef (start : Bytes) (v : Visit Attr) (p : Prim) (s : ES) : Bool × ES :=
+  let path := pathOf start v.ent.rpath
+  match p with
+  | .exec dir cmdOk cmd tmpl =>
+    let (arg, cwd) := if dir then dirArgRef start v.ent.rpath else (path, none)
+    let r := s.gs.spawn cmdOk (cmd :: tmpl.map (replaceAll arg)) cwd
+    (r.1 == some 0, { s with gs := r.2 })
+  | .execMulti _ dir _ _ _ =>
+    let (arg, cwd) := if dir then dirArgRef start v.ent.rpath else (path, none)
+    (true, { s with gs := { s.gs with execs := s.gs.execs ++ [⟨[arg], cwd⟩] } })
+  | p => sem start v p s
+
+def evalRefEntryX (l : List (List (List XP))) (start : Bytes) (v : Visit Attr) (g : GS) : EvalOut × GS :=
+  let s0 : ES := ⟨g, false, false, 0⟩
+  let r := if l.isEmpty then (true, s0) else refL (semRef start v) (·.quit) l false s0
+  let r := if actL Prim.isAction l || r.2.quit || !r.1 then r else semRef start v (.pathOut [] [10]) r.2
+  (⟨r.2.prune, r.2.quit, r.2.exit⟩, r.2.gs)
+
+def refRootsX (c : RefCfg) (sorted : Bool) (l : List (List (List XP))) :
+    List (Bytes × Option (Node Attr)) → Acc GS → Acc GS
+  | [], acc => acc
+  | (_, none) :: rest, acc => refRootsX c sorted l rest (diag acc)
+  | (start, some n) :: rest, acc =>
+    let n := if sorted then sortNode n else n
+    let r := refRoot c (evalRefEntryX l start) n ⟨acc.st, 0, acc.diags⟩
+    let acc' : Acc GS := ⟨r.2.st, if r.2.ret != 0 then r.2.ret else acc.ret, r.2.diags⟩
+    if r.1 then acc' else refRootsX c sorted l rest acc'
+
+/-- reference run with exec actions: output, status of the walk, and the exec events -/
+def refRunX (follow : Follow) (roots : List (Bytes × Option (Node Attr))) (args : List Arg) (script : List Nat) :
+    Option (RefRes × List ExecEvent) :=
+  let c := args.foldl applyArg { follow := follow }
+  match parseExpr (args.map Arg.tok') with
+  | none => none
+  | some l =>
+    let r := refRootsX (refCfg c) c.sorted l roots ⟨{ script := script }, 0, 0⟩
+    some (⟨r.st.out, r.ret, r.diags⟩, r.st.execs)
 
 /-- records of an output stream: NUL-terminated if a NUL occurs, else newline-terminated -/
 def records (out : Bytes) : List Bytes :=
